@@ -127,6 +127,8 @@ def run(ctx):
     quick = ctx.quick
     ctx.cov["rule"] = ("TLC (Loc.tla) enumerates every layout program of <= N items (N = 2 quick, 3 thorough) over 28 item kinds (declaration; splice between / "
                        "inside tokens, double splice, splice first on a line; block comment over 2 / 3 lines; // comment, // comment continued by a splice; "
+                       "generated block comments = every text over {*, /, a, new-line, backslash} of <= 5 (quick) / 6 (thorough) characters after the opener that ends at its first "
+                       "star-slash once splices are removed, leading a line or between two tokens, alone / next to a declaration line (thorough: also #line 7, splice-first line), without and with an undeclared identifier on the next line; "
                        "1 / 2 blank lines; #pragma; null directive; ID( over 3 lines, ID newline (; DROP(..\\newline); #line 1 / 7 / 2147483647 / 010; "
                        "#line 7 \"f.c\" / \"f\" / \"f.c.h\" / \"<std\" and #line 7 \"\" (names that are prefixes / extensions of one another and of the input name); # 7 \"g.h\" 1 3; # 2147483647 \"g.h\" 1 3; # 1 \"g.h\") each alone and followed by each of 9 violation items, plus random "
                        "programs of 4..7 items; every program is run: -E token dump (all tokens' file:line) or compile (stderr prefix). non-trivial = at least one item")
@@ -140,7 +142,11 @@ def run(ctx):
         nsim = 80 if quick else 1500
         jobs = {"refine": ("MC_Loc_refine_%s.cfg" % tier, {}, {}),
                 "gen": ("MC_Loc_%s.cfg" % tier, {"Devs": lexlib.tla_set(devs)}, {"heap": "4g"}),
-                "sim": ("MC_Loc_sim.cfg", {"Devs": lexlib.tla_set(devs)}, {"simulate": nsim, "depth": 9})}
+                "sim": ("MC_Loc_sim.cfg", {"Devs": lexlib.tla_set(devs)}, {"simulate": nsim, "depth": 9}),
+                # generated block comments: every text over {*, /, a, new-line, backslash} of <= MaxCmt characters after the opener
+                # whose first star-slash (after splice removal) is its end, leading a line / between two tokens
+                "refine_cmt": ("MC_Loc_refine_cmt_%s.cfg" % tier, {}, {}),
+                "gen_cmt": ("MC_Loc_cmt_%s.cfg" % tier, {"Devs": lexlib.tla_set(devs)}, {"heap": "4g"})}
 
         def tlc_job(name):
             base, subst, kw = jobs[name]
@@ -153,9 +159,19 @@ def run(ctx):
                 raise vlib.MachineryError("model %s rejected (rc=%d):\n%s" % (jobs[name][0], r.rc, r.out[-4000:]))
         ctx.cov["refinement"] = {"cfg": jobs["refine"][0], "distinct_states": runs["refine"].distinct, "holds": True,
                                  "statement": "with no deviation switched on the machine gives every token (incl. directive tokens and new-lines) the declarative file, line and column"}
+        ctx.cov["refinement_generated_comments"] = {"cfg": jobs["refine_cmt"][0], "distinct_states": runs["refine_cmt"].distinct, "holds": True}
         cases = load_cases(runs["gen"])
         seen = {c["text"] + c["v"].encode() for c in cases}
         for c in load_cases(runs["sim"]):
+            k = c["text"] + c["v"].encode()
+            if k not in seen:
+                seen.add(k)
+                cases.append(c)
+        ccases = load_cases(runs["gen_cmt"])
+        ctx.cov["generated_comments"] = {"cfg": jobs["gen_cmt"][0], "comment_texts": len({bytes(c["c"]) for c in ccases if c["c"]}),
+                                         "with_new_line_inside": len({bytes(c["c"]) for c in ccases if 10 in c["c"]}),
+                                         "programs": sum(1 for c in ccases if c["c"])}
+        for c in ccases:
             k = c["text"] + c["v"].encode()
             if k not in seen:
                 seen.add(k)
